@@ -1,3 +1,4 @@
+import Wax.Proofs.SpecRe
 import Wax.Walk
 import Wax.Fragment
 import Wax.Proofs.Compose
@@ -830,28 +831,28 @@ example :
 
 /-! ### 7. what happens without the hypotheses -/
 
-/-- `/**` as parsed -/
-def npRootedTreeTok : Tok := .cat ⟨0, 3⟩ [.tree ⟨0, 3⟩ true]
+/-- `/**/a` as parsed -/
+def npRootedTreeTok : Tok := .cat ⟨0, 5⟩ [.tree ⟨0, 4⟩ true, .lit ⟨4, 1⟩ ['a'] false]
 
 set_option maxRecDepth 100000 in
-theorem npRootedTreeTok_parse : parse "/**".toList = .ok npRootedTreeTok := by rfl
+theorem npRootedTreeTok_parse : parse "/**/a".toList = .ok npRootedTreeTok := by rfl
 
-/-- **`residue_iff_matches_partial` is false without `notF01`**: `not("/**")`.  As a glob of its own
-    the rooted tree wildcard is compiled as `([/].*)`; `into_non_trivial` unwraps it and `any` puts
-    it into an alternation, where it is compiled as `(?:.*)`.  So the negation discards the relative
-    path `a` (and every other path, as a tree: the walk yields nothing), which the documented
-    language of `/**` does not contain. -/
+/-- **`residue_iff_matches_partial` is false without `notF01`**: `not("/**/a")`.  A rooted tree
+    wildcard at the start of a pattern is compiled as `([/].*[/]?)` (finding K-ENC-ROOTED-FIRST),
+    which accepts half a component: the negation discards `/xa`, which the documented language of
+    `/**/a` does not contain.  (Until the repair of `{/**}` — a rooted tree wildcard that is a whole
+    branch at the start of a pattern, compiled as `(?:.*)` — the witness here was `not("/**")`,
+    which discarded every path as a tree.) -/
 theorem residue_iff_matches_needs_F01 :
     notF01 npRootedTreeTok = false ∧
-    (notProgram npRootedTreeTok).residue σcs "a".toList = .tree ∧
-    ¬ Spec.Matches σcs npRootedTreeTok "a".toList ∧
-    -- while the pattern compiled as a glob is right
-    (encodeTop npRootedTreeTok).matchB σcs "a".toList = false := by
-  refine ⟨rfl, by decide, ?_, by decide⟩
+    (notProgram npRootedTreeTok).residue σcs "/xa".toList = .file ∧
+    ¬ Spec.Matches σcs npRootedTreeTok "/xa".toList := by
+  refine ⟨rfl, by decide, ?_⟩
   intro h
-  have h' : SMs σcs ⟨true, true⟩ [.tree ⟨0, 3⟩ true] ['a'] := h
-  rw [sms_singleton, sm_tree] at h'
-  simp [TreeLang] at h'
+  have := (specRe_correct σcs rfl npRootedTreeTok "/xa".toList).mpr h
+  rw [← matchB_iff] at this
+  revert this
+  decide
 
 /-- `**/{a}` as parsed -/
 def npFalseAlwaysTok : Tok :=
